@@ -129,6 +129,17 @@ CHECKS["C15"] = dict(
     note=CFG_NOTE + " Unknown keys on non-dynamic configurations raise AttributeError (not a declared field). Messages are not compared.",
     technique="Lean 4 proof (case analysis over the wrapped regions of the operation model) + model/implementation correspondence",
     design="6 C15")
+CHECKS["C11"] = dict(
+    text="Lean 4 theorems about Schema._validate / load_tree in code order: raising-mode validation returns iff the feature flag is off or "
+         "no field has a problem and every schema validator holds (characterisation), hence a returning validation means every field "
+         "validator accepted the stored value, every nested configuration validated, every schema validator passed; required implies "
+         "set (and non-empty strings); a load with validation that returns has run the whole validation on the result (induction over "
+         "the tree entries); collecting mode is non-empty iff raising mode raises; a flag that is off exempts exactly its own "
+         "configuration. Correspondence: schemas with required fields, logging validators and flags x trees/documents; the live "
+         "configuration (list items included) is walked after every returning validation.",
+    note=CFG_NOTE + " The validator catalogue is implemented twice (Python/Lean). Items of configuration lists are checked at load/insert only.",
+    technique="Lean 4 proof (characterisation of the validation pass; induction over tree entries) + model/implementation correspondence",
+    design="6 C11")
 PENDING = ["C01", "C02", "C03", "C04", "C05", "C06", "C07", "C08", "C09", "C10", "C11", "C12", "C13", "C14", "C15", "C16",
            "C17", "C19", "C20"]
 
